@@ -649,6 +649,12 @@ void mt_raise(int sig, int thr)
 
 	if (sig <= 0 || sig >= NSIGV)
 		return;
+	/* like the kernel: a signal whose default action is "ignore" (SIGCHLD) is discarded when it is GENERATED while
+	   the disposition is the default one; it does not stay pending for a handler installed later */
+	if (sig == SIGCHLD && sig_handler[sig] == NULL) {
+		vk_trace("Sdfl %d", sig);
+		return;
+	}
 	if (thr >= 0 && thr < nthr && th[thr].used && !th[thr].finished && th[thr].blocked != BLK_JOIN) {
 		th[thr].sigpending |= 1ULL << sig;
 		return;
